@@ -165,6 +165,8 @@ def havoc_value(eng, v, seen=None):
                 pass
             elif isinstance(x, int) and not isinstance(x, bool):
                 v.fields[k] = x  # concrete ints in objects are configuration; keep
+            elif hasattr(x, "__pyvc_fresh__"):  # immutable extension value (e.g. a symbolic string): the FIELD gets a fresh value, aliases keep theirs
+                v.fields[k] = x.__pyvc_fresh__(eng)
             else:
                 havoc_value(eng, x, seen)
     elif isinstance(v, DictListRef):
@@ -203,6 +205,21 @@ def _callee_mutates_self(eng, obj, mname):
     return False
 
 
+def _lookup(eng, node, fr):
+    """Evaluate an expression of the loop body only to FIND the object it denotes (the thing to havoc).  This is a look-up at the
+    loop head, before the invariants are assumed, not an execution of the body: obligations it would emit (`path[len(path) - 1]`:
+    index in bounds) are not obligations of the program -- the body's own execution emits them where they belong -- and their goals
+    must not stay behind as assumptions either."""
+    no = len(eng.obligs)
+    try:
+        return eng.ev(node, fr)
+    finally:
+        dropped = eng.obligs[no:]
+        if dropped:
+            del eng.obligs[no:]
+            eng.pc[:] = [h for h in eng.pc if not any(h is ob.goal for ob in dropped)]
+
+
 def havoc_loop_state(eng, nodes, fr, spec, extra_names=()):
     names, roots = analyse_mutation(eng, nodes, fr)
     names |= set(extra_names)
@@ -219,7 +236,7 @@ def havoc_loop_state(eng, nodes, fr, spec, extra_names=()):
     for r in roots:
         try:
             if isinstance(r, tuple) and r[0] == "attr":
-                base = eng.ev(r[1], fr)
+                base = _lookup(eng, r[1], fr)
                 if isinstance(base, Obj) and r[2] in base.fields:
                     cur = base.fields[r[2]]
                     if isinstance(cur, Sym):
@@ -231,11 +248,11 @@ def havoc_loop_state(eng, nodes, fr, spec, extra_names=()):
                         havoc_value(eng, cur, done)
                 continue
             if isinstance(r, tuple) and r[0] == "call":
-                base = eng.ev(r[1], fr)
+                base = _lookup(eng, r[1], fr)
                 if isinstance(base, Obj) and _callee_mutates_self(eng, base, r[2]):
                     havoc_value(eng, base, done)
                 continue
-            v = eng.ev(r, fr)
+            v = _lookup(eng, r, fr)
         except (ProgExc, Unsupported):
             continue
         if isinstance(v, (SArr, NArr, PList, PDict, Obj, DictListRef)):
@@ -404,6 +421,39 @@ def _yield_sink(fr, body):
     return f.yield_sink if f is not None else None
 
 
+def _append_loop(eng, s, fr, seqv):
+    """the idiom   for x in S: [if c(x):] L.append(e(x))   over a symbolic-length S without a loop contract is the statement
+    L.extend(e(x) for x in S [if c(x)])  (same elements, same order; c and e must not mention L).  Returns True when it applied."""
+    if s.orelse or not isinstance(s.target, ast.Name) or len(s.body) != 1 or eng.spec_mode:
+        return False
+    st, test = s.body[0], None
+    if isinstance(st, ast.If) and not st.orelse and len(st.body) == 1:
+        st, test = st.body[0], st.test
+    if not (isinstance(st, ast.Expr) and isinstance(st.value, ast.Call) and isinstance(st.value.func, ast.Attribute) and st.value.func.attr == "append"
+            and isinstance(st.value.func.value, ast.Name) and len(st.value.args) == 1 and not st.value.keywords):
+        return False
+    lname, elt = st.value.func.value.id, st.value.args[0]
+    for part in [elt] + ([test] if test is not None else []):
+        if any(isinstance(x, ast.Name) and x.id == lname for x in ast.walk(part)) or any(isinstance(x, (ast.NamedExpr, ast.Yield, ast.YieldFrom, ast.Await)) for x in ast.walk(part)):
+            return False
+    later = False  # the loop variable keeps its last value after a real loop: refuse when it is read afterwards
+    for x in ast.walk(fr.func.node) if fr.func is not None else ():
+        if isinstance(x, ast.Name) and x.id == s.target.id and isinstance(x.ctx, ast.Load) and getattr(x, "lineno", 0) > getattr(s, "end_lineno", 0):
+            later = True
+    if later:
+        return False
+    lst = fr.lookup(lname)
+    if not isinstance(lst, PList):
+        return False
+    gen = ast.GeneratorExp(elt=elt, generators=[ast.comprehension(target=ast.Name(id=s.target.id, ctx=ast.Store()), iter=s.iter,
+                                                                  ifs=[test] if test is not None else [], is_async=0)])
+    ast.copy_location(gen, s)
+    ast.fix_missing_locations(gen)
+    val = eng.models.comprehension_over(eng, gen, fr, "gen", seqv)
+    eng.models.LIST_METHODS["extend"](eng, lst, [val], {})
+    return True
+
+
 def exec_for(eng, s, fr):
     spec, o = loop_spec(eng, fr, s)
     seqv = eng.ev(s.iter, fr)
@@ -411,6 +461,8 @@ def exec_for(eng, s, fr):
         try:
             items = eng.models.iterate_concrete(eng, seqv)
         except Unsupported as e:
+            if _append_loop(eng, s, fr, seqv):
+                return
             raise Unsupported(f"for loop #{o} in {_fn_label(eng, fr)} iterates a symbolic sequence and has no invariant ({e})")
         for x in items:
             eng.assign(s.target, x, fr)
@@ -467,7 +519,28 @@ def exec_for(eng, s, fr):
             for lab, fn in spec["yields"]:
                 eng.prove(f"{pre}/yields/{lab}", fn(eng, _visible(fr), list(sink.items[m0:]), k), "yields")
         fr.vars[kname] = eng.snum(k.z + 1, "int")
+        mark = len(eng.pc)
         check_invs(eng, spec, fr, old_vars, entry_vars, pre, "preserved")
+        if spec.get("lookahead"):
+            # loop contract option lookahead=True (2-induction for the body's own obligations): the NEXT iteration is executed
+            # as well, from the state the body really produced -- what the invariant obligations above added as hypotheses is
+            # dropped again -- so that the externally meaningful obligations inside the body (assertions of the contract's ghost
+            # code, preconditions of calls, safety, exception flow) are also proved one iteration after an arbitrary state
+            # satisfying the invariant.  On a carrier whose body no longer re-establishes an (internal) invariant this tells
+            # whether a step claim of the property itself breaks.  Nothing is assumed: obligations of equal name are merged.
+            if sink is not None:
+                raise Unsupported("lookahead in a yielding invariant-cut loop")
+            del eng.pc[mark:]
+            k1 = eng.snum(k.z + 1, "int")
+            if eng.branch(eng.sbool(to_z3(k1, "int") < nz)):
+                eng.assign(s.target, getter(k1), fr)
+                eng.in_lookahead = getattr(eng, "in_lookahead", 0) + 1
+                try:
+                    eng.exec_block(s.body, fr)
+                except (ContinueSig, BreakSig):
+                    pass
+                finally:
+                    eng.in_lookahead -= 1
         raise PathEnd()
     if sink is not None:
         sink.items.append(LoopYields(o, n, [lab for lab, _ in spec["yields"]]))
